@@ -13,19 +13,19 @@ TEXT = {
  'C05': ("a successful deposit is exactly transfer+burn of the stated amount and one module-sent message stating it; ledger effect; sender = submitter; total burnt = sum of deposits over any history", "7 C05"),
  'C06': ("every MessageSent / DepositForBurn payload, read with the literal-offset reference decoder, carries exactly the requested content; replacement event names the original's burn token", "7 C06"),
  'C07': ("k-th successful producer gets start+k-1 (mod 2^64) over every history; counter = start + #successes; failures and replacements consume nothing; replacements reuse the original nonce", "7 C07"),
- 'C08': ("deposit succeeds iff the documented precondition record holds (both directions, under the named fact that Keccak digests are 32 bytes); limit inclusive / limit+1 rejected for every limit", "7 C08"),
+ 'C08': ("deposit succeeds iff the documented precondition record holds (both directions; the one fact needed about the hash, 32-byte digests, is a named hypothesis in general and PROVED for the Keccak-256 the model runs: native_keccakLen); limit inclusive / limit+1 rejected for every limit", "7 C08"),
  'C09': ("replacements succeed only for the submitter's own currently-attested Noble message, preserve the documented fields (reference decoder), write nothing, call no dependency, respect the pause flags", "7 C09"),
  'C10': ("a privileged transaction that succeeds was submitted by the holder of its role; every other submitter fails and changes nothing (no finiteness assumption on accounts)", "7 C10"),
  'C11': ("the stored roles refine the lifecycle automaton for every transaction and history; two-step ownership, supersession, no replay, valid addresses only, nothing else touches a role", "7 C11"),
  'C12': ("each pause flag blocks exactly the flows it names (and the burn flag does not affect non-module receives), changes only by the pauser's action on that flag, pausing idempotent, admin stays available", "7 C12"),
- 'C13': ("1 <= threshold <= #attesters is preserved by every transaction of every type, hence over every history; boundary corollaries", "7 C13"),
+ 'C13': ("1 <= threshold <= #attesters is preserved by every transaction of every type, hence over every history and every chain of multi-message transactions from a genesis that satisfies it (inv_from_genesis); boundary corollaries", "7 C13"),
  'C14': ("for ALL fault plans: success needs every dependency call to have succeeded; any hit fault or late validation failure is an error; the rollback itself is the SDK contract encoded in `deliver` (assumed, exercised by a real CacheContext)", "7 C14"),
  'C15': ("every write of every successful handler lies in the documented write set of its type (all states, all inputs); replacements write nothing; failed transactions commit nothing; monitor: recorder around the real store service", "7 C15"),
  'C16': ("module codec = literal-offset CCTP reference codec on every byte string / value; both round trips; wrong sizes rejected; regenerated constants = CCTP offsets", "7 C16"),
- 'C17': ("genesis validate/init/export: collisions rejected, export(init g) = normalised g, init(export st) = st except the known pending-owner finding", "7 C17"),
- 'C18': ("the model is a function of (genesis, history): agreement of every replay with it implies replays agree; plus replay-vs-replay comparison of app hash/responses/events and a static nondeterminism scan; scheduler effects explored not proved", "7 C18"),
+ 'C17': ("genesis validate/init/export: collisions rejected, export(init g) = normalised g, init(export st) = st except the known pending-owner finding; the same over chains of multi-message transactions; the default genesis validates, initialises and round-trips", "7 C17"),
+ 'C18': ("the model is a function of (genesis, history): agreement of every replay with it implies replays agree; plus replay-vs-replay comparison of app hash/responses/events and a static scan (no map range, time, rand, goroutine, package-level write, write through a keeper receiver); every op runs under a varying block header, Go context and execution mode that the model ignores; scheduler effects explored not proved", "7 C18"),
  'C19': ("registries refine finite maps; single-item queries find an entry iff it exists; pagination returns every entry exactly once", "7 C19"),
- 'C20': ("no handler, query, decoder or CLI parser of the model panics in a reachable state on any input (library panics outside the model are explored, not proved)", "7 C20"),
+ 'C20': ("no handler, query, decoder or CLI parser of the model panics in any state reachable from ANY genesis that initialises through ANY chain of multi-message transactions (no_panic_reachable: no invariant left as a hypothesis), on any input within the wire's own bounds (library panics outside the model are explored, not proved)", "7 C20"),
 }
 
 def main():
